@@ -217,7 +217,7 @@ def run_fetcher_case(nan_fields):
     conns = {Connection(1, 2), Connection(2, 8), Connection(8, 9)}
     kw = {"soc": 40.0, "cap": 1000.0, "sl": 20.0, "su": 80.0}
     for f in nan_fields:
-        kw[f] = math.nan
+        kw[f] = float("nan")  # a NaN object of its own, as decoded from the wire - not the math.nan singleton
     with virtual_loop(wall=True) as loop, fakes.fake_microgrid(comps, conns) as cm:
         metrics = [M.CAPACITY, M.SOC_LOWER_BOUND, M.SOC_UPPER_BOUND, M.SOC]
         t = loop.create_task(LatestBatteryMetricsFetcher.async_new(9, metrics))
@@ -268,7 +268,7 @@ def fetcher_shard(_):
 POOL_BATS = [9, 19, 29]
 STEP = 0.6  # seconds of virtual time after every event (message age 0.6 / 1.2 / 1.8 s stays below the 2 s limit)
 MSG_VARIANTS = {"lo": dict(soc=30.0, cap=1000.0, sl=20.0, su=80.0), "hi": dict(soc=90.0, cap=3000.0, sl=10.0, su=90.0),
-                "nosoc": dict(soc=math.nan, cap=2000.0, sl=20.0, su=80.0)}
+                "nosoc": dict(soc=float("nan"), cap=2000.0, sl=20.0, su=80.0)}
 
 
 def pool_events(tier):
